@@ -222,8 +222,21 @@ def rule_t2(chk: Check, ix: Index):
     hoisted = False
     if _eof_test(chain[0].test) and not chain[0].orelse:
         try:
-            ps = stmt_paths(list(chain[0].body), opaque_loops=True)
+            ps = stmt_paths(list(chain[0].body), opaque_loops=True, split_bool=True)
             hoisted = bool(ps) and all(p[-1][1] in ("break", "raise", "return") for p in ps)
+            # leaving quietly is right between two statements only: a path that ends the scan without raising must have
+            # established that no string is open, no bracket is open and no continuation is pending
+            for p in ps:
+                if p[-1][1] in ("break", "return"):
+                    c = {x[1]: x[2] for x in p if x[0] == "cond"}
+                    closed = c.get("state.end_progs") is False or c.get("not state.end_progs") is True
+                    flat = c.get("state.parenlev == 0") is True or c.get("state.parenlev > 0") is False or c.get("state.parenlev") is False
+                    fresh = c.get("state.continued") is False or c.get("not state.continued") is True
+                    chk.count("T2-eof-exit")
+                    chk.require(closed and flat and fresh, "T2-eof-exit", "_tokenize:eof-block:quiet-exit", f"{f.rel}:{chain[0].lineno}",
+                                f"the end-of-input block in front of the dispatch leaves the scan without an error on a path that has not "
+                                f"established that no string is open, the bracket depth is 0 and no continuation is pending (facts: {c}): "
+                                f"input that ends inside a triple-quoted string, inside brackets or after a backslash is then accepted")
         except AnalysisError:
             hoisted = False
         chain = chain[1:]
